@@ -159,6 +159,7 @@ class SimNet:
         plan = self._plan()
         k = self.attempt - 1
         self.sent.append(text)
+        w.plan['attempt:' + self.name] = k
         w.rec(self.name, 'wire.send', attempt=k, text=text, notification=bool(is_notification))
         if plan['pre']:
             yield ('sleep', plan['pre'])
